@@ -120,6 +120,30 @@ def make_scenario(rng, tier):
         sc.update(ns=n2 + rng.choice([1, 1, 2]), k=k2, n=n2, happy=n2, profile="replan", pre=None, remove=[],
                   oneshot=[{"meth": "allocate_buckets", "nth": rng.randint(1, n2), "fault": rng.choice(["raise", "raise", "disconnect"])}])
         sc["modes"] = ["writable"] * sc["ns"]
+    elif rng.random() < 0.2:
+        # re-upload onto a grown grid: an earlier upload (happiness 1) left every share on one server; the threshold
+        # now needs the new servers, and one or two of them fail while shares are pushed - some share numbers are
+        # then listed on the old server AND on a failing new one
+        n2 = rng.choice([3, 3, 4])
+        k2 = rng.randint(1, n2 - 1)
+        ns2 = rng.choice([3, 3, 4])
+        sc.update(ns=ns2, k=k2, n=n2, happy=rng.choice([ns2, ns2, ns2 - 1]), profile="reupload", remove=[],
+                  pre={"servers": [0], "n": n2, "delete": rng.random() < 0.5}, modes=["writable"] * ns2, oneshot=[])
+        # (when some of the old shares were deleted, the old server gets new buckets too and may lose one of them while it
+        #  stays in the share map through a share it still holds)
+        for _ in range(rng.choice([1, 1, 2, 2, 3])):
+            sc["oneshot"].append({"meth": rng.choice(["write", "write", "close"]), "nth": rng.randint(1, 3),
+                                  "fault": rng.choice(["raise", "disconnect"]),
+                                  "srv": rng.randrange(0 if sc["pre"]["delete"] else 1, ns2)})
+    elif rng.random() < 0.12:
+        # capacity boundary, fault free: fewer servers than shares, one server advertises room for exactly one share
+        # (or one and a half), the threshold needs every server: a happy layout exists (one share there, the rest elsewhere)
+        ns2 = rng.choice([2, 3, 3])
+        n2 = rng.choice([ns2 + 1, ns2 + 1, ns2 + 2, 2 * ns2])
+        k2 = rng.randint(1, min(3, n2 - 1))
+        sc.update(ns=ns2, k=k2, n=n2, happy=ns2, profile="capacity", remove=[], pre=None, oneshot=[],
+                  modes=["small_known"] + ["writable"] * (ns2 - 1), order="fifo")
+        rng.shuffle(sc["modes"])
     return sc
 
 
@@ -174,6 +198,11 @@ def run_scenario(sc, rng, workdir, idx):
             SPACE.free[base] = 0           # the advertised version still says there is room
         elif mode == "small":
             SPACE.free[base] = rng.choice([150, 300, 450, 700])
+        elif mode == "small_known":
+            # room for one share of this upload (what allocate_buckets asks for), not for two; honestly advertised
+            one = len(next(iter(ref_main.values()))) + 100
+            SPACE.free[base] = one + rng.choice([0, one // 3, one - 101])
+            srv.rref.version = srv.fss.remote_get_version()
 
     pre_disk = {nm: sorted(g.shares(si_ref).get(nm, {})) for nm in names}
 
@@ -239,7 +268,12 @@ def run_scenario(sc, rng, workdir, idx):
             elif mode == "slow" and p.methname in ("get_buckets", "allocate_buckets") and prng.random() < 0.5:
                 fault = "lose"
             for o in oneshot:
-                if o["meth"] == p.methname and o["nth"] == counts[p.methname]:
+                if "srv" in o:
+                    if p.server == "s%d" % o["srv"] and o["meth"] == p.methname:
+                        o["seen"] = o.get("seen", 0) + 1
+                        if o["seen"] == o["nth"]:
+                            fault = o["fault"]
+                elif o["meth"] == p.methname and o["nth"] == counts[p.methname]:
                     fault = o["fault"]
         return ("call", i, fault)
 
@@ -303,7 +337,10 @@ def run_scenario(sc, rng, workdir, idx):
               "modes": {("s%d" % i): sc["modes"][i] for i in range(ns)},
               "removed": ["s%d" % i for i in sc["remove"]],
               "pre": pre_disk, "profile": sc["profile"], "order": sc["order"],
-              "pre_n": sc["pre"]["n"] if sc["pre"] else 0, "oneshot": sc["oneshot"], "size": sc["size"], "notes": notes}
+              "pre_n": sc["pre"]["n"] if sc["pre"] else 0, "oneshot": sc["oneshot"], "size": sc["size"], "notes": notes,
+              # fault free: every server answers every call, tells the truth about its space, and nothing was there before
+              "faultfree": bool(not sc["oneshot"] and not sc["remove"] and not sc["pre"] and not notes
+                                and all(m in ("writable", "small_known", "full_known") for m in sc["modes"]))}
     return {"consts": consts, "events": events}
 
 
@@ -314,6 +351,7 @@ def main():
     ap.add_argument("--seed", type=int, default=0)
     ap.add_argument("--tier", default="quick")
     ap.add_argument("--n", type=int, default=100)
+    ap.add_argument("--profiles", default="")
     args = ap.parse_args()
     rng = random.Random("c06:%d" % args.seed)
     workdir = tempfile.mkdtemp(prefix="c06_")
@@ -321,6 +359,8 @@ def main():
     try:
         for i in range(args.n):
             sc = make_scenario(rng, args.tier)
+            while args.profiles and sc["profile"] not in args.profiles.split(","):
+                sc = make_scenario(rng, args.tier)
             srng = random.Random(rng.randrange(1 << 60))
             traces.append(run_scenario(sc, srng, workdir, i))
     finally:
